@@ -565,6 +565,32 @@ func labelOfElemSeen(L *Loaded, v ssa.Value, seen map[ssa.Value]bool) string {
 	switch x := v.(type) {
 	case *ssa.Call:
 		if cal := x.Common().StaticCallee(); cal != nil {
+			// a builder helper that returns one freshly built node is also that node
+			if strings.HasPrefix(fnPkgPath(cal), modPath) && len(cal.Blocks) > 0 && cal.Signature.Results().Len() == 1 {
+				kinds := map[string]bool{}
+				okAll := true
+				for _, r := range returnsOf(cal) {
+					if len(r.Results) != 1 || isNilConst(r.Results[0]) {
+						continue
+					}
+					rv := resolve(r.Results[0])
+					if mi, isMI := rv.(*ssa.MakeInterface); isMI {
+						rv = resolve(mi.X)
+					}
+					if al, isAl := rv.(*ssa.Alloc); isAl {
+						if n, ok := isAstNodeType(al.Type()); ok {
+							kinds[n] = true
+							continue
+						}
+					}
+					okAll = false
+				}
+				if okAll && len(kinds) == 1 {
+					for k := range kinds {
+						return "call:" + cal.Name() + "|lit:" + k
+					}
+				}
+			}
 			return "call:" + cal.Name()
 		}
 		if x.Common().IsInvoke() {
@@ -909,7 +935,7 @@ func rulePairedEdges(c *Ctx, rule string) {
 		return
 	}
 	var edges, rev []*ssa.MapUpdate
-	for _, f2 := range withClosures(ng) {
+	for _, f2 := range family(L, ng) {
 		for _, b := range f2.Blocks {
 			for _, in := range b.Instrs {
 				mu, ok := in.(*ssa.MapUpdate)
